@@ -9,13 +9,13 @@ from ..frontend.pyfront import Repo
 from .common import need_func, make_eq, eps_mask
 
 LEVEL = 'other'
-TECHNIQUE = 'table extraction with exact integer oracle (double factorial); partial evaluation of the integer-power routines for every exponent (polynomial identity a^b); class-domain abstract interpretation of csqrt/clog/cexp against C99 Annex G'
+TECHNIQUE = 'table extraction with exact integer oracle (double factorial); partial evaluation of the integer-power routines for every exponent (polynomial identity a^b); class-domain abstract interpretation of csqrt/clog/cexp against C99 Annex G; enumeration of every path through the finite-argument branches of hypot/csqrt/cexp/clog with the defining identity decided on each arm (sample points drawn inside the arm; atan2, frexp/ldexp, log1p modelled algebraically)'
 LEVEL_TEXT = ('Decides the parts of the property that are visible in source: every tabulated double factorial is the correctly rounded exact value; integer powers reduce to a^b for every '
-              '|b| < 100 and to exp(b log a) beyond; the special-value behaviour of csqrt/clog/cexp is checked per floating-point class pair; the legacy Python square root agrees with the compiled one.')
+              '|b| < 100 and to exp(b log a) beyond; the special-value behaviour of csqrt/clog/cexp is checked per floating-point class pair; the legacy Python square root agrees with the compiled one; for finite arguments every branch of hypot, csqrt, cexp and clog returns an expression that satisfies the defining identity over the reals (hypot^2 = x^2+y^2, csqrt(z)^2 = z, cexp(z) = e^x(cos y + i sin y), exp(clog z) = z).')
 LEVEL_NOTE = ('Trusted: Cython-subset front-end, interpreter, class-level transfer functions of libm (sqrt, hypot, log, atan2, copysign per C99 Annex F), float() of a decimal literal is correctly rounded (as strtod). '
               'Not decided: ulp-level accuracy and overflow thresholds for finite arguments.')
 EXPLANATION = ('R20.1 double-factorial literals and index guard; R20.4 integer powers; R20.5 legacy _sqrt_neg_python == principal root; '
-               'R20.6 cf_build_dblcmplx writes (re, im) to slots (0, 1); R20.2 Annex G class tables.')
+               'R20.6 cf_build_dblcmplx writes (re, im) to slots (0, 1); R20.2 Annex G class tables; R20.7 defining identities on every finite-argument path; R20.8 module constants.')
 
 
 def dfact(n):
@@ -166,6 +166,8 @@ def run(chk):
     # compiled main branch: t = sqrt((|z| + z_r)/2), result = (t, z_i/(2t)) for z_r >= 0 : same principal root
     finite_paths(chk, repo)
     chk.floor('R20.7', 2)
+    constants(chk, repo)
+    chk.floor('R20.8', 7)
     chk.floor('R20.1', 50); chk.floor('R20.4', 10); chk.floor('R20.5', 21)
 
     from . import c20_annexg
@@ -323,3 +325,38 @@ def finite_paths(chk, repo):
             chk.ob('R20.7', f'{label} on every open arm of its finite-argument branches ({n_open} arms)', True, '', mc.where(f), key=f'R20.7|{fname}', method='path enumeration + GF(p^2) PIT inside each arm')
         for key, (lab, desc, where) in bad.items():
             chk.ob('R20.7', f'{label} on the arm [{key}]', False, f'identity fails ({desc}); e.g.{lab[:200]}', mc.where(f), key=f'R20.7|{fname}|{key}', method='path enumeration + GF(p^2) PIT inside each arm')
+
+
+def constants(chk, repo):
+    """module-level constants of complex.pyx that the finite-argument identities take for granted: LOGE2 is ln 2 and SQRT2 is sqrt 2 to double precision (the
+    identities above model them as log(2) and sqrt(2)), and the derived constants are built from them as the reference implementation (FreeBSD msun / numpy) does"""
+    from fractions import Fraction
+    from sympy import log as slog, sqrt as ssqrt, Rational, N as sN
+    mc = repo.by_path('TidalPy/utilities/math/complex.pyx')
+    lits = {}
+    for st in mc.tree.body:
+        if isinstance(st, ast.Assign) and len(st.targets) == 1 and isinstance(st.targets[0], ast.Name):
+            lits[st.targets[0].id] = st.value
+    for nm, exact in (('LOGE2', slog(2)), ('SQRT2', ssqrt(2))):
+        v = lits.get(nm)
+        if not (isinstance(v, ast.Constant) and isinstance(v.value, float)):
+            raise AnalysisError(f'complex.pyx: constant {nm} is not a float literal')
+        want = float(sN(exact, 40))
+        chk.ob('R20.8', f'{nm} literal is the double nearest to {exact}', v.value == want, f'literal {v.value!r}, exact {want!r}', mc.where(v), key=f'R20.8|{nm}', method='exact comparison with a 40-digit value')
+    expect = {'SQRT2_INV': '1.0/(1.0+SQRT2)', 'THRESH': 'SQRT2_INV*DBL_MAX', 'DBL_MAX_4': '0.25*DBL_MAX', 'SCALED_K_LOGE2_D': 'SCALED_CEXP_K_D*LOGE2'}
+    it = Interp(repo, hooks={'global': lambda itp, mod, nm: X.atom(nm, 'pos') if nm in ('DBL_MAX', 'SQRT2', 'LOGE2', 'SCALED_CEXP_K_D') else None})
+    from ..core.interp import Frame
+    d = X.Decider(seed=chk.seed + 61, k=2)
+    for nm, txt in expect.items():
+        v = lits.get(nm)
+        if v is None:
+            raise AnalysisError(f'complex.pyx: constant {nm} vanished')
+        fr = Frame(mc, '<module>')
+        defs = {k_: lits[k_] for k_ in ('SQRT2_INV',) if k_ in lits}
+        fr.vars['SQRT2_INV'] = it.eval(lits['SQRT2_INV'], Frame(mc, '<module>')) if 'SQRT2_INV' in lits else None
+        got = it.eval(v, fr)
+        ref = it.eval(ast.parse(txt, mode='eval').body, fr)
+        chk.ob('R20.8', f'{nm} == {txt}', d.equal(X.lift(got), X.lift(ref)), f'defined as {ast.unparse(v)}', mc.where(v), key=f'R20.8|{nm}', method='GF(p^2) PIT')
+    kd = lits.get('SCALED_CEXP_K_D')
+    chk.ob('R20.8', 'SCALED_CEXP_K_D == 1799 (the double-precision scaling exponent of the reference implementation)', isinstance(kd, ast.Constant) and kd.value == 1799, f'{ast.unparse(kd) if kd is not None else None}',
+           mc.where(kd) if kd is not None else mc.rel(), key='R20.8|SCALED_CEXP_K_D', method='AST')
